@@ -364,8 +364,9 @@ fn grid_for(law: &str, which: usize) -> &'static [f64] {
         ("Gumbel", 1) => &[1e-3, 0.5, 1.0, 7.0, 1e3],
         ("Exponential", _) => &[1e-3, 0.5, 1.0, 4.0, 1e3],
         ("Poisson", _) => &[1e-3, 0.5, 5.0, 9.99, 10.0, 42.0, 149.0, 150.0, 400.0],
-        ("Binomial", 0) => &[0.0, 1.0, 15.0, 70.0, 1000.0],
-        ("Binomial", 1) | ("Bernoulli", _) => &[0.0, 1e-3, 0.25, 0.3, 0.5, 0.7, 0.75, 0.999, 1.0],
+        ("Binomial", 0) => &[0.0, 1.0, 15.0, 60.0, 70.0, 100.0, 120.0, 240.0, 1000.0, 1001.0],
+        ("DiscreteUniform", _) => &[-7.0, -2.0, 0.0, 1.0, 3.0, 6.0, 100.0, -4e18, 4e18, 4294967296.0, -4294967296.0, 9e15],
+        ("Binomial", 1) | ("Bernoulli", _) => &[0.0, 1e-3, 0.125, 0.25, 0.3, 0.5, 0.7, 0.75, 0.999, 1.0],
         _ => &[-7.0, -2.0, 0.0, 1.0, 3.0, 6.0, 100.0],
     }
 }
@@ -381,7 +382,22 @@ fn gen_value(r: &mut Sm, law: &str, which: usize, cur: &[f64], want_valid: bool)
         let c = cur[which];
         let v = match r.below(8) {
             0..=2 => *r.pick(grid_for(law, which)),
-            3 => *r.pick(&[c * 0.5, c + 1.0, c - 1.0, 1.0 - c]),
+            3 if law == "Binomial" && r.chance(0.4) => {
+                // the inversion / BTPE switch sits at n * min(p, 1-p) = 30: land on it and next to it
+                if which == 1 {
+                    let q = 30.0 / cur[0].max(1.0);
+                    *r.pick(&[q, f64::from_bits(q.to_bits() + 1), f64::from_bits(q.to_bits().saturating_sub(1)), 1.0 - q])
+                } else {
+                    let pp = cur[1].min(1.0 - cur[1]).max(1e-3);
+                    let m = (30.0 / pp).round();
+                    *r.pick(&[m, m + 1.0, m - 1.0])
+                }
+            }
+            3 => {
+                // (adjacent doubles of the current value, except around zero: subnormal parameters are not generated)
+                let adj = |d: i64| if c.abs() >= 1e-300 && c.is_finite() { f64::from_bits((c.to_bits() as i64 + d) as u64) } else { c + 1.0 };
+                *r.pick(&[c * 0.5, c + 1.0, c - 1.0, 1.0 - c, adj(1), adj(-1)])
+            }
             4 => c * 2.0 + 1.0,
             5 => c - 3.0,
             6 => match law {
